@@ -386,9 +386,75 @@ def run_part(p, part, nparts, tier):
                               pr, admins, (c1, c2, c3), cfg_id)
 
 
+def grants_part(p, part, nparts):
+    """The parenthesis of the statement: a bypass is in effect exactly when
+    an admin asked for it in a comment, or the author's *own* per-author
+    entry grants it, or the command line does - never because another author
+    holds it.  Effective value = the utils.bypass_* predicate the gates call."""
+    import itertools
+    gwf, exc, Reactor, options, commands = setup_env()
+    from bert_e.workflow.gitwaterflow import utils
+    from bert_e.settings import PrAuthorsOptions
+    names = [n for n in PrAuthorsOptions.BYPASS_LIST if hasattr(utils, n)]
+    idx = -1
+    for opt in names:
+        for admin_c, other_c, own, before, after, cmdline in \
+                itertools.product((0, 1), repeat=6):
+            idx += 1
+            if idx % nparts != part:
+                continue
+            gwf.setup({opt: True} if cmdline else {})
+            job, pr = make_job('alice', ('admin',))
+            f = PrAuthorsOptions()
+            data = {}
+            if before:
+                data['aaron'] = list(f.BYPASS_LIST)
+            if own:
+                data['alice'] = [opt]
+            elif before and after:
+                data['alice'] = []
+            if after:
+                data['zoe'] = list(f.BYPASS_LIST)
+            job.bert_e.settings['pr_author_options'] = f.deserialize(data)
+            Reactor().init_settings(job)
+            pr.comments = []
+            if admin_c:
+                pr.comments.append(Cmt('admin', '@robot ' + opt))
+            if other_c:
+                # somebody else's pull request talk that names the option
+                pr.comments.append(Cmt('bob', 'should we use %s here?' % opt))
+            case = {'option': opt, 'admin_comment': admin_c,
+                    'unaddressed_comment': other_c, 'own_entry': own,
+                    'other_author_before': before, 'other_author_after':
+                    after, 'command_line': cmdline}
+            try:
+                gwf.handle_comments(job)
+            except Exception as e:
+                p.mismatch('grants-exc:%s' % case,
+                           'handle_comments raised %s: %s' % (
+                               type(e).__name__, case), case)
+                continue
+            p.evaluations += 1
+            p.nontrivial += 1
+            for n in names:
+                got = bool(getattr(utils, n)(job))
+                want = n == opt and bool(admin_c or own or cmdline)
+                if got != want:
+                    p.mismatch('grants:%s:%s' % (n, case),
+                               '%s is %s in effect, expected %s: %s' % (
+                                   n, got, want, case), case)
+    gwf.setup({})
+
+
 def run(tier, seed, workers=None):
     cr = CheckResult(PROP, 'exploration')
     tot = core.run_parts(run_part, 64, extra=(tier,), workers=workers)
+    g = core.run_parts(grants_part, 4, workers=workers)
+    tot.evaluations += g.evaluations
+    tot.nontrivial += g.nontrivial
+    tot.mismatches += g.mismatches
+    tot.error = tot.error or g.error
+    tot.counters['grant_source_combinations'] = g.evaluations
     return core.fill_result(
         cr, tot,
         rule='comment = author class x addressee form (@robot, @robot:, '
